@@ -53,6 +53,8 @@ Fixpoint aget (k : N) (l : list (N * N)) : option N :=
 Fixpoint adel (k : N) (l : list (N * N)) : list (N * N) :=
   match l with [] => [] | (a, b) :: r => if a =? k then adel k r else (a, b) :: adel k r end.
 Definition aset (k v : N) (l : list (N * N)) : list (N * N) := (k, v) :: adel k l.
+Fixpoint adel1 (k : N) (l : list (N * N)) : list (N * N) :=
+  match l with [] => [] | (a, b) :: r => if a =? k then r else (a, b) :: adel1 k r end.
 (* unordered_map::emplace: no effect when the key exists *)
 Definition aemplace (k v : N) (l : list (N * N)) : list (N * N) :=
   match aget k l with Some _ => l | None => l ++ [(k, v)] end.
@@ -96,7 +98,7 @@ Definition invalidate (u : N) (l : list lgr) : list lgr :=
    ths      thread contexts (queue, transit buffer, blocked in remove_logger_blocking)
    rflags   BackendWorker::_logger_removal_flags    fset     flags stored true
    ghost: clog committed records, plog processed events, wlog sink writes, dlog destroyed sinks, elog erased
-   loggers, bad = a freed logger or sink was dereferenced; obs = API level observations *)
+   loggers, glog every logger object ever created, bad = a freed logger or sink was dereferenced; obs = API level observations *)
 Record st := {
   lgs : list lgr;
   has_inv : bool;
@@ -117,51 +119,54 @@ Record st := {
   wlog : list (N * N * N);
   dlog : list N;
   elog : list N;
+  glog : list lgr;
   bad : bool;
   obs : list N }.
 
 Definition set_lgs (f : list lgr -> list lgr) (s : st) : st :=
-  {| lgs := f (lgs s); has_inv := has_inv s; pc := pc s; stab := stab s; live := live s; hnd := hnd s; vars := vars s; ths := ths s; rflags := rflags s; fset := fset s; nlg := nlg s; nsk := nsk s; nfl := nfl s; clk := clk s; clog := clog s; plog := plog s; wlog := wlog s; dlog := dlog s; elog := elog s; bad := bad s; obs := obs s |}.
+  {| lgs := f (lgs s); has_inv := has_inv s; pc := pc s; stab := stab s; live := live s; hnd := hnd s; vars := vars s; ths := ths s; rflags := rflags s; fset := fset s; nlg := nlg s; nsk := nsk s; nfl := nfl s; clk := clk s; clog := clog s; plog := plog s; wlog := wlog s; dlog := dlog s; elog := elog s; glog := glog s; bad := bad s; obs := obs s |}.
 Definition set_has_inv (f : bool -> bool) (s : st) : st :=
-  {| lgs := lgs s; has_inv := f (has_inv s); pc := pc s; stab := stab s; live := live s; hnd := hnd s; vars := vars s; ths := ths s; rflags := rflags s; fset := fset s; nlg := nlg s; nsk := nsk s; nfl := nfl s; clk := clk s; clog := clog s; plog := plog s; wlog := wlog s; dlog := dlog s; elog := elog s; bad := bad s; obs := obs s |}.
+  {| lgs := lgs s; has_inv := f (has_inv s); pc := pc s; stab := stab s; live := live s; hnd := hnd s; vars := vars s; ths := ths s; rflags := rflags s; fset := fset s; nlg := nlg s; nsk := nsk s; nfl := nfl s; clk := clk s; clog := clog s; plog := plog s; wlog := wlog s; dlog := dlog s; elog := elog s; glog := glog s; bad := bad s; obs := obs s |}.
 Definition set_pc (f : option (nat * list N * bool) -> option (nat * list N * bool)) (s : st) : st :=
-  {| lgs := lgs s; has_inv := has_inv s; pc := f (pc s); stab := stab s; live := live s; hnd := hnd s; vars := vars s; ths := ths s; rflags := rflags s; fset := fset s; nlg := nlg s; nsk := nsk s; nfl := nfl s; clk := clk s; clog := clog s; plog := plog s; wlog := wlog s; dlog := dlog s; elog := elog s; bad := bad s; obs := obs s |}.
+  {| lgs := lgs s; has_inv := has_inv s; pc := f (pc s); stab := stab s; live := live s; hnd := hnd s; vars := vars s; ths := ths s; rflags := rflags s; fset := fset s; nlg := nlg s; nsk := nsk s; nfl := nfl s; clk := clk s; clog := clog s; plog := plog s; wlog := wlog s; dlog := dlog s; elog := elog s; glog := glog s; bad := bad s; obs := obs s |}.
 Definition set_stab (f : list sent -> list sent) (s : st) : st :=
-  {| lgs := lgs s; has_inv := has_inv s; pc := pc s; stab := f (stab s); live := live s; hnd := hnd s; vars := vars s; ths := ths s; rflags := rflags s; fset := fset s; nlg := nlg s; nsk := nsk s; nfl := nfl s; clk := clk s; clog := clog s; plog := plog s; wlog := wlog s; dlog := dlog s; elog := elog s; bad := bad s; obs := obs s |}.
+  {| lgs := lgs s; has_inv := has_inv s; pc := pc s; stab := f (stab s); live := live s; hnd := hnd s; vars := vars s; ths := ths s; rflags := rflags s; fset := fset s; nlg := nlg s; nsk := nsk s; nfl := nfl s; clk := clk s; clog := clog s; plog := plog s; wlog := wlog s; dlog := dlog s; elog := elog s; glog := glog s; bad := bad s; obs := obs s |}.
 Definition set_live (f : list N -> list N) (s : st) : st :=
-  {| lgs := lgs s; has_inv := has_inv s; pc := pc s; stab := stab s; live := f (live s); hnd := hnd s; vars := vars s; ths := ths s; rflags := rflags s; fset := fset s; nlg := nlg s; nsk := nsk s; nfl := nfl s; clk := clk s; clog := clog s; plog := plog s; wlog := wlog s; dlog := dlog s; elog := elog s; bad := bad s; obs := obs s |}.
+  {| lgs := lgs s; has_inv := has_inv s; pc := pc s; stab := stab s; live := f (live s); hnd := hnd s; vars := vars s; ths := ths s; rflags := rflags s; fset := fset s; nlg := nlg s; nsk := nsk s; nfl := nfl s; clk := clk s; clog := clog s; plog := plog s; wlog := wlog s; dlog := dlog s; elog := elog s; glog := glog s; bad := bad s; obs := obs s |}.
 Definition set_hnd (f : list (N * N) -> list (N * N)) (s : st) : st :=
-  {| lgs := lgs s; has_inv := has_inv s; pc := pc s; stab := stab s; live := live s; hnd := f (hnd s); vars := vars s; ths := ths s; rflags := rflags s; fset := fset s; nlg := nlg s; nsk := nsk s; nfl := nfl s; clk := clk s; clog := clog s; plog := plog s; wlog := wlog s; dlog := dlog s; elog := elog s; bad := bad s; obs := obs s |}.
+  {| lgs := lgs s; has_inv := has_inv s; pc := pc s; stab := stab s; live := live s; hnd := f (hnd s); vars := vars s; ths := ths s; rflags := rflags s; fset := fset s; nlg := nlg s; nsk := nsk s; nfl := nfl s; clk := clk s; clog := clog s; plog := plog s; wlog := wlog s; dlog := dlog s; elog := elog s; glog := glog s; bad := bad s; obs := obs s |}.
 Definition set_vars (f : list (N * N) -> list (N * N)) (s : st) : st :=
-  {| lgs := lgs s; has_inv := has_inv s; pc := pc s; stab := stab s; live := live s; hnd := hnd s; vars := f (vars s); ths := ths s; rflags := rflags s; fset := fset s; nlg := nlg s; nsk := nsk s; nfl := nfl s; clk := clk s; clog := clog s; plog := plog s; wlog := wlog s; dlog := dlog s; elog := elog s; bad := bad s; obs := obs s |}.
+  {| lgs := lgs s; has_inv := has_inv s; pc := pc s; stab := stab s; live := live s; hnd := hnd s; vars := f (vars s); ths := ths s; rflags := rflags s; fset := fset s; nlg := nlg s; nsk := nsk s; nfl := nfl s; clk := clk s; clog := clog s; plog := plog s; wlog := wlog s; dlog := dlog s; elog := elog s; glog := glog s; bad := bad s; obs := obs s |}.
 Definition set_ths (f : list thr -> list thr) (s : st) : st :=
-  {| lgs := lgs s; has_inv := has_inv s; pc := pc s; stab := stab s; live := live s; hnd := hnd s; vars := vars s; ths := f (ths s); rflags := rflags s; fset := fset s; nlg := nlg s; nsk := nsk s; nfl := nfl s; clk := clk s; clog := clog s; plog := plog s; wlog := wlog s; dlog := dlog s; elog := elog s; bad := bad s; obs := obs s |}.
+  {| lgs := lgs s; has_inv := has_inv s; pc := pc s; stab := stab s; live := live s; hnd := hnd s; vars := vars s; ths := f (ths s); rflags := rflags s; fset := fset s; nlg := nlg s; nsk := nsk s; nfl := nfl s; clk := clk s; clog := clog s; plog := plog s; wlog := wlog s; dlog := dlog s; elog := elog s; glog := glog s; bad := bad s; obs := obs s |}.
 Definition set_rflags (f : list (N * N) -> list (N * N)) (s : st) : st :=
-  {| lgs := lgs s; has_inv := has_inv s; pc := pc s; stab := stab s; live := live s; hnd := hnd s; vars := vars s; ths := ths s; rflags := f (rflags s); fset := fset s; nlg := nlg s; nsk := nsk s; nfl := nfl s; clk := clk s; clog := clog s; plog := plog s; wlog := wlog s; dlog := dlog s; elog := elog s; bad := bad s; obs := obs s |}.
+  {| lgs := lgs s; has_inv := has_inv s; pc := pc s; stab := stab s; live := live s; hnd := hnd s; vars := vars s; ths := ths s; rflags := f (rflags s); fset := fset s; nlg := nlg s; nsk := nsk s; nfl := nfl s; clk := clk s; clog := clog s; plog := plog s; wlog := wlog s; dlog := dlog s; elog := elog s; glog := glog s; bad := bad s; obs := obs s |}.
 Definition set_fset (f : list N -> list N) (s : st) : st :=
-  {| lgs := lgs s; has_inv := has_inv s; pc := pc s; stab := stab s; live := live s; hnd := hnd s; vars := vars s; ths := ths s; rflags := rflags s; fset := f (fset s); nlg := nlg s; nsk := nsk s; nfl := nfl s; clk := clk s; clog := clog s; plog := plog s; wlog := wlog s; dlog := dlog s; elog := elog s; bad := bad s; obs := obs s |}.
+  {| lgs := lgs s; has_inv := has_inv s; pc := pc s; stab := stab s; live := live s; hnd := hnd s; vars := vars s; ths := ths s; rflags := rflags s; fset := f (fset s); nlg := nlg s; nsk := nsk s; nfl := nfl s; clk := clk s; clog := clog s; plog := plog s; wlog := wlog s; dlog := dlog s; elog := elog s; glog := glog s; bad := bad s; obs := obs s |}.
 Definition set_nlg (f : N -> N) (s : st) : st :=
-  {| lgs := lgs s; has_inv := has_inv s; pc := pc s; stab := stab s; live := live s; hnd := hnd s; vars := vars s; ths := ths s; rflags := rflags s; fset := fset s; nlg := f (nlg s); nsk := nsk s; nfl := nfl s; clk := clk s; clog := clog s; plog := plog s; wlog := wlog s; dlog := dlog s; elog := elog s; bad := bad s; obs := obs s |}.
+  {| lgs := lgs s; has_inv := has_inv s; pc := pc s; stab := stab s; live := live s; hnd := hnd s; vars := vars s; ths := ths s; rflags := rflags s; fset := fset s; nlg := f (nlg s); nsk := nsk s; nfl := nfl s; clk := clk s; clog := clog s; plog := plog s; wlog := wlog s; dlog := dlog s; elog := elog s; glog := glog s; bad := bad s; obs := obs s |}.
 Definition set_nsk (f : N -> N) (s : st) : st :=
-  {| lgs := lgs s; has_inv := has_inv s; pc := pc s; stab := stab s; live := live s; hnd := hnd s; vars := vars s; ths := ths s; rflags := rflags s; fset := fset s; nlg := nlg s; nsk := f (nsk s); nfl := nfl s; clk := clk s; clog := clog s; plog := plog s; wlog := wlog s; dlog := dlog s; elog := elog s; bad := bad s; obs := obs s |}.
+  {| lgs := lgs s; has_inv := has_inv s; pc := pc s; stab := stab s; live := live s; hnd := hnd s; vars := vars s; ths := ths s; rflags := rflags s; fset := fset s; nlg := nlg s; nsk := f (nsk s); nfl := nfl s; clk := clk s; clog := clog s; plog := plog s; wlog := wlog s; dlog := dlog s; elog := elog s; glog := glog s; bad := bad s; obs := obs s |}.
 Definition set_nfl (f : N -> N) (s : st) : st :=
-  {| lgs := lgs s; has_inv := has_inv s; pc := pc s; stab := stab s; live := live s; hnd := hnd s; vars := vars s; ths := ths s; rflags := rflags s; fset := fset s; nlg := nlg s; nsk := nsk s; nfl := f (nfl s); clk := clk s; clog := clog s; plog := plog s; wlog := wlog s; dlog := dlog s; elog := elog s; bad := bad s; obs := obs s |}.
+  {| lgs := lgs s; has_inv := has_inv s; pc := pc s; stab := stab s; live := live s; hnd := hnd s; vars := vars s; ths := ths s; rflags := rflags s; fset := fset s; nlg := nlg s; nsk := nsk s; nfl := f (nfl s); clk := clk s; clog := clog s; plog := plog s; wlog := wlog s; dlog := dlog s; elog := elog s; glog := glog s; bad := bad s; obs := obs s |}.
 Definition set_clk (f : N -> N) (s : st) : st :=
-  {| lgs := lgs s; has_inv := has_inv s; pc := pc s; stab := stab s; live := live s; hnd := hnd s; vars := vars s; ths := ths s; rflags := rflags s; fset := fset s; nlg := nlg s; nsk := nsk s; nfl := nfl s; clk := f (clk s); clog := clog s; plog := plog s; wlog := wlog s; dlog := dlog s; elog := elog s; bad := bad s; obs := obs s |}.
+  {| lgs := lgs s; has_inv := has_inv s; pc := pc s; stab := stab s; live := live s; hnd := hnd s; vars := vars s; ths := ths s; rflags := rflags s; fset := fset s; nlg := nlg s; nsk := nsk s; nfl := nfl s; clk := f (clk s); clog := clog s; plog := plog s; wlog := wlog s; dlog := dlog s; elog := elog s; glog := glog s; bad := bad s; obs := obs s |}.
 Definition set_clog (f : list (nat * rcd) -> list (nat * rcd)) (s : st) : st :=
-  {| lgs := lgs s; has_inv := has_inv s; pc := pc s; stab := stab s; live := live s; hnd := hnd s; vars := vars s; ths := ths s; rflags := rflags s; fset := fset s; nlg := nlg s; nsk := nsk s; nfl := nfl s; clk := clk s; clog := f (clog s); plog := plog s; wlog := wlog s; dlog := dlog s; elog := elog s; bad := bad s; obs := obs s |}.
+  {| lgs := lgs s; has_inv := has_inv s; pc := pc s; stab := stab s; live := live s; hnd := hnd s; vars := vars s; ths := ths s; rflags := rflags s; fset := fset s; nlg := nlg s; nsk := nsk s; nfl := nfl s; clk := clk s; clog := f (clog s); plog := plog s; wlog := wlog s; dlog := dlog s; elog := elog s; glog := glog s; bad := bad s; obs := obs s |}.
 Definition set_plog (f : list (nat * rcd) -> list (nat * rcd)) (s : st) : st :=
-  {| lgs := lgs s; has_inv := has_inv s; pc := pc s; stab := stab s; live := live s; hnd := hnd s; vars := vars s; ths := ths s; rflags := rflags s; fset := fset s; nlg := nlg s; nsk := nsk s; nfl := nfl s; clk := clk s; clog := clog s; plog := f (plog s); wlog := wlog s; dlog := dlog s; elog := elog s; bad := bad s; obs := obs s |}.
+  {| lgs := lgs s; has_inv := has_inv s; pc := pc s; stab := stab s; live := live s; hnd := hnd s; vars := vars s; ths := ths s; rflags := rflags s; fset := fset s; nlg := nlg s; nsk := nsk s; nfl := nfl s; clk := clk s; clog := clog s; plog := f (plog s); wlog := wlog s; dlog := dlog s; elog := elog s; glog := glog s; bad := bad s; obs := obs s |}.
 Definition set_wlog (f : list (N * N * N) -> list (N * N * N)) (s : st) : st :=
-  {| lgs := lgs s; has_inv := has_inv s; pc := pc s; stab := stab s; live := live s; hnd := hnd s; vars := vars s; ths := ths s; rflags := rflags s; fset := fset s; nlg := nlg s; nsk := nsk s; nfl := nfl s; clk := clk s; clog := clog s; plog := plog s; wlog := f (wlog s); dlog := dlog s; elog := elog s; bad := bad s; obs := obs s |}.
+  {| lgs := lgs s; has_inv := has_inv s; pc := pc s; stab := stab s; live := live s; hnd := hnd s; vars := vars s; ths := ths s; rflags := rflags s; fset := fset s; nlg := nlg s; nsk := nsk s; nfl := nfl s; clk := clk s; clog := clog s; plog := plog s; wlog := f (wlog s); dlog := dlog s; elog := elog s; glog := glog s; bad := bad s; obs := obs s |}.
 Definition set_dlog (f : list N -> list N) (s : st) : st :=
-  {| lgs := lgs s; has_inv := has_inv s; pc := pc s; stab := stab s; live := live s; hnd := hnd s; vars := vars s; ths := ths s; rflags := rflags s; fset := fset s; nlg := nlg s; nsk := nsk s; nfl := nfl s; clk := clk s; clog := clog s; plog := plog s; wlog := wlog s; dlog := f (dlog s); elog := elog s; bad := bad s; obs := obs s |}.
+  {| lgs := lgs s; has_inv := has_inv s; pc := pc s; stab := stab s; live := live s; hnd := hnd s; vars := vars s; ths := ths s; rflags := rflags s; fset := fset s; nlg := nlg s; nsk := nsk s; nfl := nfl s; clk := clk s; clog := clog s; plog := plog s; wlog := wlog s; dlog := f (dlog s); elog := elog s; glog := glog s; bad := bad s; obs := obs s |}.
 Definition set_elog (f : list N -> list N) (s : st) : st :=
-  {| lgs := lgs s; has_inv := has_inv s; pc := pc s; stab := stab s; live := live s; hnd := hnd s; vars := vars s; ths := ths s; rflags := rflags s; fset := fset s; nlg := nlg s; nsk := nsk s; nfl := nfl s; clk := clk s; clog := clog s; plog := plog s; wlog := wlog s; dlog := dlog s; elog := f (elog s); bad := bad s; obs := obs s |}.
+  {| lgs := lgs s; has_inv := has_inv s; pc := pc s; stab := stab s; live := live s; hnd := hnd s; vars := vars s; ths := ths s; rflags := rflags s; fset := fset s; nlg := nlg s; nsk := nsk s; nfl := nfl s; clk := clk s; clog := clog s; plog := plog s; wlog := wlog s; dlog := dlog s; elog := f (elog s); glog := glog s; bad := bad s; obs := obs s |}.
+Definition set_glog (f : list lgr -> list lgr) (s : st) : st :=
+  {| lgs := lgs s; has_inv := has_inv s; pc := pc s; stab := stab s; live := live s; hnd := hnd s; vars := vars s; ths := ths s; rflags := rflags s; fset := fset s; nlg := nlg s; nsk := nsk s; nfl := nfl s; clk := clk s; clog := clog s; plog := plog s; wlog := wlog s; dlog := dlog s; elog := elog s; glog := f (glog s); bad := bad s; obs := obs s |}.
 Definition set_bad (f : bool -> bool) (s : st) : st :=
-  {| lgs := lgs s; has_inv := has_inv s; pc := pc s; stab := stab s; live := live s; hnd := hnd s; vars := vars s; ths := ths s; rflags := rflags s; fset := fset s; nlg := nlg s; nsk := nsk s; nfl := nfl s; clk := clk s; clog := clog s; plog := plog s; wlog := wlog s; dlog := dlog s; elog := elog s; bad := f (bad s); obs := obs s |}.
+  {| lgs := lgs s; has_inv := has_inv s; pc := pc s; stab := stab s; live := live s; hnd := hnd s; vars := vars s; ths := ths s; rflags := rflags s; fset := fset s; nlg := nlg s; nsk := nsk s; nfl := nfl s; clk := clk s; clog := clog s; plog := plog s; wlog := wlog s; dlog := dlog s; elog := elog s; glog := glog s; bad := f (bad s); obs := obs s |}.
 Definition set_obs (f : list N -> list N) (s : st) : st :=
-  {| lgs := lgs s; has_inv := has_inv s; pc := pc s; stab := stab s; live := live s; hnd := hnd s; vars := vars s; ths := ths s; rflags := rflags s; fset := fset s; nlg := nlg s; nsk := nsk s; nfl := nfl s; clk := clk s; clog := clog s; plog := plog s; wlog := wlog s; dlog := dlog s; elog := elog s; bad := bad s; obs := f (obs s) |}.
+  {| lgs := lgs s; has_inv := has_inv s; pc := pc s; stab := stab s; live := live s; hnd := hnd s; vars := vars s; ths := ths s; rflags := rflags s; fset := fset s; nlg := nlg s; nsk := nsk s; nfl := nfl s; clk := clk s; clog := clog s; plog := plog s; wlog := wlog s; dlog := dlog s; elog := elog s; glog := glog s; bad := bad s; obs := f (obs s) |}.
 
 Definition emit (l : list N) (s : st) : st := set_obs (fun o => o ++ l) s.
 Definition th (s : st) (t : nat) : thr := nth t (ths s) thr0.
@@ -173,7 +178,7 @@ Definition locked (s : st) : bool := match pc s with None => false | Some _ => t
 Definition st0 (nt : nat) : st :=
   {| lgs := []; has_inv := false; pc := None; stab := []; live := []; hnd := []; vars := [];
      ths := repeat thr0 nt; rflags := []; fset := []; nlg := 1; nsk := 1; nfl := 1; clk := 1;
-     clog := []; plog := []; wlog := []; dlog := []; elog := []; bad := false; obs := [] |}.
+     clog := []; plog := []; wlog := []; dlog := []; elog := []; glog := []; bad := false; obs := [] |}.
 
 (* ~shared_ptr<Sink>: the owner goes away; the sink is destroyed with its last owner *)
 Definition release1 (x : N) (s : st) : st :=
@@ -243,17 +248,17 @@ Definition mstep (K : cfg) (s : st) (o : mop) : st :=
       | Some _ => emit [3; h; name; 0] s
       | None =>
           match sink_lookup name s with
-          | Some u => emit [3; h; name; u] (set_hnd (aset h u) (set_live (cons u) s))
+          | Some u => emit [3; h; name; u] (set_hnd (cons (h, u)) (set_live (cons u) s))
           | None =>
               let u := nsk s in
-              emit [3; h; name; u] (set_nsk N.succ (set_hnd (aset h u) (set_live (cons u)
+              emit [3; h; name; u] (set_nsk N.succ (set_hnd (cons (h, u)) (set_live (cons u)
                 (set_stab (lb_insert e_name {| e_name := name; e_uid := u |}) s))))
           end
       end
   | FDrop h =>
       match aget h (hnd s) with
       | None => emit [14; h; 0] s
-      | Some u => release1 u (emit [14; h; 1] (set_hnd (adel h) s))
+      | Some u => release1 u (emit [14; h; 1] (set_hnd (adel1 h) s))
       end
   | FCreate v name hs =>
       if locked s then s else
@@ -262,8 +267,9 @@ Definition mstep (K : cfg) (s : st) (o : mop) : st :=
       | None =>
           let ss := handles_of hs (hnd s) in
           let u := nlg s in
+          let L := {| l_name := name; l_uid := u; l_valid := true; l_sinks := ss |} in
           emit ([4; v; name; u; N.of_nat (length hs)] ++ hs) (set_nlg N.succ (set_vars (aset v u) (set_live (app ss)
-            (set_lgs (lb_insert l_name {| l_name := name; l_uid := u; l_valid := true; l_sinks := ss |}) s))))
+            (set_glog (fun g => g ++ [L]) (set_lgs (lb_insert l_name L) s)))))
       end
   | FGet v name =>
       if locked s then s else
